@@ -89,3 +89,10 @@ def fill(check, na):
           "small sub-space is enumerated in the thorough tier.",
           "Real aioice over local UDP in real time; answerer codec preferences cannot empty the intersection; a transport still connecting at the 20 s cap is inconclusive.",
           "DESIGN.md 3/C03")
+    check("C19", "step-indexed close() injection on real RTCPeerConnection pairs (every event-loop step of the scenario is a candidate instant), completion decided by heartbeat + await-chain analysis, then state / channel / track / late-event / leftover-task and thread monitors",
+          "Held on the runs executed: close() completed, a second close() was a no-op, the three states were 'closed', every data "
+          "channel handed out was closed, received tracks ended for a consumer, no event fired afterwards and no aiortc/aioice "
+          "task or decoder thread was left. Instants are a stratified sample of the scenario's event-loop steps (all steps for some "
+          "configurations in the thorough tier); six close modes.",
+          "Real aioice over local UDP in real time; step numbering varies slightly with network timing; a close() pending at the cap while waiting on a timer/socket is inconclusive.",
+          "DESIGN.md 3/C19")
